@@ -266,6 +266,17 @@ def check(repo, ctx, index, purity):
             ctx.advisory(f'{q}: iterator without a documented nominal order; checked for consistency and order 1 only')
     ctx.extra['tableaux'] = tableaux
 
+    # R6.5 the clock advances by the dt the iterator integrated with (shared with C05 R5.2): an order-p step of size dt that is
+    # booked as a different time step is not an order-p method on the solver's time grid
+    from . import C05
+    sub = type(ctx)(ctx.prop, ctx.repo, ctx.tier, ctx.seed)
+    lo, hi, solve, names, init_nodes, fr = C05.bounds_roles(repo, sub)
+    if lo and hi:
+        C05.r52_loop(repo, sub, lo, hi, solve, names, init_nodes)
+    for fnd in sub.findings:
+        fnd.rule = 'R6.5/' + fnd.rule
+        ctx.findings.append(fnd)
+
     # R6.2 wrapper shape
     try:
         upd = repo.func(SOLVER, 'DESolver._updateX')
